@@ -40,6 +40,15 @@ func cmdGen(args []string) {
 				s = cooperativeScript(r, kind, tr, id)
 				s.CancelN = 2 + r.Intn(14)
 				s.CancelW = []string{"cancel", "deadline"}[r.Intn(2)]
+			case "card":
+				s = cardinalityScript(r, tr, id, i)
+			case "stall":
+				if tr != "inproc" {
+					continue
+				}
+				s = stallScript(r, id, i)
+			case "early":
+				s = earlyReturnScript(r, tr, id, i)
 			}
 			if tr == "http" || tr == "ref" {
 				// over sockets a handler of an earlier, cancelled call may start
@@ -49,4 +58,184 @@ func cmdGen(args []string) {
 			enc.Encode(s)
 		}
 	}
+}
+
+// cardinalityScript: single-response methods whose handler produces 0..3
+// responses with a nil or non-nil status (C08); server-streaming methods whose
+// client sends two requests (C08, HTTP server side).
+func cardinalityScript(r *rand.Rand, tr, id string, i int) *Script {
+	s := &Script{ID: id, Tr: tr, Mode: "sched", Seed: r.Int63(), Calls: 1, ReqMD: true, MsgCls: "small"}
+	if tr == "http" || tr == "ref" {
+		s.Mode = "free"
+	}
+	variant := i % 9
+	nresp := variant % 4
+	st := 0
+	if variant >= 4 && variant < 8 {
+		st = 1
+		s.StCls = []string{"plain"}
+	}
+	var h []Op
+	if variant == 8 {
+		// two requests on a single-request (server-streaming) method
+		s.Kind = "sstream"
+		s.CS = []Op{{Name: "Send"}, {Name: "Send"}, {Name: "CloseSend"}}
+		s.CR = []Op{{Name: "RecvAll"}}
+		h = []Op{{Name: "Recv"}, {Name: "Send"}, {Name: "Return"}}
+		s.Sched = []string{"cs", "cs", "cs", "h", "h", "h", "cr"}
+	} else if i%2 == 0 {
+		s.Kind = "cstream"
+		s.CS = []Op{{Name: "Send"}, {Name: "CloseSend"}}
+		s.CR = []Op{{Name: "Recv"}, {Name: "Recv"}}
+		h = []Op{{Name: "RecvAll"}}
+		if r.Intn(2) == 0 {
+			h = append(h, Op{Name: "SetHeader"})
+		}
+		for k := 0; k < nresp; k++ {
+			h = append(h, Op{Name: "Send"})
+		}
+		if r.Intn(2) == 0 {
+			h = append(h, Op{Name: "SetTrailer"})
+		}
+		h = append(h, Op{Name: "Return", Arg: st})
+		s.Sched = []string{"cs", "cs"}
+		// vary when the client starts receiving relative to the handler's sends
+		pos := r.Intn(len(h) + 1)
+		for k := 0; k <= len(h); k++ {
+			if k == pos {
+				s.Sched = append(s.Sched, "cr")
+			}
+			if k < len(h) {
+				s.Sched = append(s.Sched, "h")
+			}
+		}
+		s.Sched = append(s.Sched, "cr", "cr")
+	} else {
+		s.Kind = "unary"
+		s.CR = []Op{{Name: "Invoke"}}
+		h = []Op{{Name: "Recv"}}
+		nr := 0
+		if nresp >= 1 {
+			nr = 1
+		}
+		h = append(h, Op{Name: "Return", Arg: st, Arg2: nr})
+		s.Sched = []string{"cr", "h", "h"}
+	}
+	s.H = number(h)
+	s.CS = number(s.CS)
+	s.NHdr = maxArg(s.H, "SetHeader")
+	s.NTrl = maxArg(s.H, "SetTrailer")
+	return s
+}
+
+// stallScript: a sender keeps sending while its peer does not receive (C20).
+func stallScript(r *rand.Rand, id string, i int) *Script {
+	s := &Script{ID: id, Tr: "inproc", Mode: "sched", Seed: r.Int63(), Calls: 1, ReqMD: i%2 == 0, MsgCls: "small"}
+	n := 2 + r.Intn(39)
+	s.Kind = []string{"bidi", "cstream", "sstream"}[i%3]
+	dirReq := i%2 == 0 && s.Kind != "sstream"
+	if s.Kind == "cstream" {
+		dirReq = true
+	}
+	var h []Op
+	if dirReq {
+		// client sends n, handler receives a few times at random points
+		for k := 0; k < n; k++ {
+			s.CS = append(s.CS, Op{Name: "Send"})
+			s.Sched = append(s.Sched, "cs")
+			if r.Intn(6) == 0 {
+				h = append(h, Op{Name: "Recv"})
+				s.Sched = append(s.Sched, "h")
+			}
+		}
+		switch r.Intn(3) {
+		case 0:
+			h = append(h, Op{Name: "Return"})
+			s.Sched = append(s.Sched, "h")
+		case 1:
+			s.Sched = append(s.Sched, "cancel")
+		}
+		s.Sched = append(s.Sched, "cs", "cs")
+	} else {
+		if i%4 == 1 {
+			h = append(h, Op{Name: "SetHeader"})
+			s.Sched = append(s.Sched, "h")
+		}
+		if s.Kind == "sstream" {
+			s.CS = []Op{{Name: "Send"}, {Name: "CloseSend"}}
+			h = append(h, Op{Name: "Recv"})
+			s.Sched = append(s.Sched, "cs", "cs", "h")
+		}
+		for k := 0; k < n; k++ {
+			h = append(h, Op{Name: "Send"})
+			s.Sched = append(s.Sched, "h")
+			if r.Intn(6) == 0 {
+				if r.Intn(3) == 0 {
+					s.CR = append(s.CR, Op{Name: "Header"})
+				} else {
+					s.CR = append(s.CR, Op{Name: "Recv"})
+				}
+				s.Sched = append(s.Sched, "cr")
+			}
+		}
+		if r.Intn(2) == 0 {
+			s.Sched = append(s.Sched, "cancel")
+		}
+		s.Sched = append(s.Sched, "h", "h")
+	}
+	s.H = number(h)
+	s.CS = number(s.CS)
+	s.NHdr = maxArg(s.H, "SetHeader")
+	return s
+}
+
+// earlyReturnScript: the handler finishes while the client is still sending,
+// and the client keeps operating after completion (C05).
+func earlyReturnScript(r *rand.Rand, tr, id string, i int) *Script {
+	s := &Script{ID: id, Tr: tr, Mode: "sched", Seed: r.Int63(), Calls: 1, ReqMD: true, MsgCls: "small"}
+	if tr == "http" || tr == "ref" {
+		s.Mode = "free"
+	}
+	s.Kind = []string{"bidi", "cstream"}[i%2]
+	st := 0
+	if r.Intn(2) == 0 {
+		st = 1
+		s.StCls = []string{"plain"}
+	}
+	var h []Op
+	for k, n := 0, r.Intn(2); k < n; k++ {
+		h = append(h, Op{Name: "Recv"})
+	}
+	if r.Intn(2) == 0 {
+		h = append(h, Op{Name: "SetTrailer"})
+	}
+	if s.Kind == "cstream" && st == 0 {
+		h = append(h, Op{Name: "Send"})
+	}
+	h = append(h, Op{Name: "Return", Arg: st})
+	nsend := 1 + r.Intn(5)
+	for k := 0; k < nsend; k++ {
+		s.CS = append(s.CS, Op{Name: "Send"})
+	}
+	s.CS = append(s.CS, Op{Name: "CloseSend"}, Op{Name: "CloseSend"})
+	s.CR = []Op{{Name: "RecvAll"}, {Name: "Recv"}, {Name: "Header"}, {Name: "Trailer"}, {Name: "Recv"}}
+	// handler first, then the client's sends, close, receives, and again
+	for range h {
+		s.Sched = append(s.Sched, "h")
+	}
+	for range s.CS {
+		s.Sched = append(s.Sched, "cs")
+	}
+	for range s.CR {
+		s.Sched = append(s.Sched, "cr")
+	}
+	// shuffle lightly: move some client sends before the handler's return
+	if r.Intn(2) == 0 && len(s.Sched) > 3 {
+		k := r.Intn(len(h))
+		s.Sched = append(append(append([]string{}, s.Sched[:k]...), "cs"), s.Sched[k:]...)
+	}
+	s.H = number(h)
+	s.CS = number(s.CS)
+	s.NTrl = maxArg(s.H, "SetTrailer")
+	return s
 }
